@@ -494,8 +494,9 @@ func kv(body string) map[string]string {
 	return m
 }
 
-// events extracts (tag, id, col, row) for each placement control sequence
-func events(b []byte) (evs [][4]int, uploads []int) {
+// events extracts (tag, id, col, row) for each placement control sequence and (2, id, 0, 0) for
+// each complete image upload, in output order
+func events(b []byte) (evs [][4]int) {
 	toks := tokenize(b)
 	for i, t := range toks {
 		if t.kind == 3 {
@@ -532,7 +533,7 @@ func events(b []byte) (evs [][4]int, uploads []int) {
 			evs = append(evs, [4]int{tag, id, pid >> 16, pid & 0xffff})
 		case m["f"] == "100":
 			if m["m"] == "0" {
-				uploads = append(uploads, id)
+				evs = append(evs, [4]int{2, id, 0, 0}) // final chunk of an upload of image id
 			}
 		default:
 			evs = append(evs, [4]int{8, id, 0, 0})
@@ -549,7 +550,202 @@ type placeable interface {
 	VerifEncoding() bool
 }
 
-func genPlacement(cfg *hx.Config, s *hx.Stream, direct *[]hx.DirectViolation, sixel bool) (doubleUploads int) {
+// history drives one Vaxis through Clear / Resize / Draw / Render and records the
+// operations (model terms) and what was observed at every render.
+type history struct {
+	cfg     *hx.Config
+	sixel   bool
+	stream  string
+	vx      *vaxis.Vaxis
+	fc      *hx.FakeConsole
+	root    vaxis.Window
+	cleared bool
+	ops     []string
+	opsJ    [][]int
+	frames  []string
+	framesJ []interface{}
+	tags    map[string]bool
+	// sixel: images re-encoded since their last write, and those drawn (and fitting) this frame
+	pending map[int]bool
+	drawn   map[int][2]int
+	direct  *[]hx.DirectViolation
+	stale   int
+}
+
+func newHistory(cfg *hx.Config, sixel bool, direct *[]hx.DirectViolation) *history {
+	h := &history{cfg: cfg, sixel: sixel, stream: "placement", tags: map[string]bool{}, pending: map[int]bool{},
+		drawn: map[int][2]int{}, direct: direct}
+	if sixel {
+		h.stream = "sixel"
+	}
+	h.vx, h.fc = newVaxis(24, 80)
+	h.vx.Render()
+	h.fc.Take()
+	h.root = h.vx.Window()
+	return h
+}
+
+func (h *history) addOp(code, id, col, row, w, ht, ww, wh int) {
+	h.ops = append(h.ops, hx.Tuple(z(code), z(id), z(col), z(row), z(w), z(ht), z(ww), z(wh)))
+	h.opsJ = append(h.opsJ, []int{code, id, col, row, w, ht, ww, wh})
+}
+
+func (h *history) newImage(src image.Image) placeable {
+	if h.sixel {
+		return h.vx.NewSixel(src)
+	}
+	return h.vx.NewKittyGraphic(src)
+}
+
+func (h *history) clear() {
+	h.root = h.vx.Window()
+	h.root.Clear()
+	h.cleared = true
+	h.addOp(0, 0, 0, 0, 0, 0, 0, 0)
+}
+
+func (h *history) resize(k placeable, w, ht int) {
+	k.Resize(w, ht)
+	waitIdle(k.VerifEncoding)
+	h.pending[int(k.VerifID())] = true
+	h.addOp(4, int(k.VerifID()), 0, 0, 0, 0, 0, 0)
+}
+
+func (h *history) draw(k placeable, col, row, ww, wh int, nested bool) {
+	w, ht := k.CellSize()
+	win := h.root.New(col, row, ww, wh)
+	if nested {
+		win = h.root.New(col/2, row/2, -1, -1).New(col-col/2, row-row/2, ww, wh)
+	}
+	ww, wh = win.Size()
+	k.Draw(win)
+	h.addOp(1, int(k.VerifID()), col, row, w, ht, ww, wh)
+	if w <= ww && ht <= wh {
+		h.drawn[int(k.VerifID())] = [2]int{col, row}
+	}
+}
+
+func (h *history) render(refresh bool) {
+	snap := h.vx.VerifGraphicsNext()
+	if h.sixel && h.cleared {
+		// Sixel.Draw marks exactly the cells of the drawn rectangles.  (Only on frames
+		// that start from a cleared screen: a placement left over from an earlier frame
+		// re-marks cells at render time with the image's current size, see writeFunc.)
+		scr := h.vx.VerifScreenNext()
+		want := map[[2]int]bool{}
+		for _, p := range snap {
+			for y := 0; y < p.H; y++ {
+				for x := 0; x < p.W; x++ {
+					want[[2]int{p.Col + x, p.Row + y}] = true
+				}
+			}
+		}
+		for y := range scr {
+			for x := range scr[y] {
+				if scr[y][x].Sixel != want[[2]int{x, y}] {
+					*h.direct = append(*h.direct, hx.DirectViolation{Class: "sixel-cells",
+						Case: map[string]interface{}{"ops": h.opsJ, "cell": []int{x, y}, "marked": scr[y][x].Sixel},
+						What: "the cells marked by Sixel.Draw are not the cells of the drawn image rectangles"})
+				}
+			}
+		}
+	}
+	if refresh {
+		h.vx.Refresh()
+		h.addOp(3, 0, 0, 0, 0, 0, 0, 0)
+		h.tags["refresh"] = true
+	} else {
+		h.vx.Render()
+		h.addOp(2, 0, 0, 0, 0, 0, 0, 0)
+	}
+	evs := events(h.fc.Take())
+	if h.sixel {
+		// a sixel string carries no identifier, so the transmission clause is checked here:
+		// an image re-encoded since its last write and drawn in this frame must be written
+		for id, at := range h.drawn {
+			if !h.pending[id] {
+				continue
+			}
+			written := false
+			for _, e := range evs {
+				if e[0] == 1 && e[2] == at[0] && e[3] == at[1] {
+					written = true
+				}
+			}
+			if written {
+				h.pending[id] = false
+			} else {
+				h.stale++
+				if h.stale == 1 {
+					*h.direct = append(*h.direct, hx.DirectViolation{Class: "resize-same-cells",
+						Case: map[string]interface{}{"stream": "sixel", "ops": h.opsJ, "id": id},
+						What: "a Sixel image resized to the same cell size is not written again, so the new pixels are not shown"})
+				}
+			}
+		}
+	}
+	h.drawn = map[int][2]int{}
+	h.cleared = false
+	var ps, es []string
+	var pj, ej [][]int
+	for _, p := range snap {
+		ps = append(ps, hx.Tuple(hx.ZU(p.ID), z(p.Col), z(p.Row), z(p.W), z(p.H)))
+		pj = append(pj, []int{int(p.ID), p.Col, p.Row, p.W, p.H})
+	}
+	for _, e := range evs {
+		es = append(es, hx.Tuple(z(e[0]), z(e[1]), z(e[2]), z(e[3])))
+		ej = append(ej, []int{e[0], e[1], e[2], e[3]})
+	}
+	rf := 0
+	if refresh {
+		rf = 1
+	}
+	h.frames = append(h.frames, hx.Tuple(z(rf), hx.List(ps), hx.List(es)))
+	h.framesJ = append(h.framesJ, map[string]interface{}{"refresh": refresh, "graphicsNext": pj, "events": ej})
+}
+
+func (h *history) finish(s *hx.Stream, nontrivial bool) {
+	closeVaxis(h.vx)
+	var tl []string
+	for t := range h.tags {
+		tl = append(tl, t)
+	}
+	s.Add(hx.Tuple(hx.List(h.ops), hx.List(h.frames)),
+		map[string]interface{}{"stream": h.stream, "ops": h.opsJ, "frames": h.framesJ}, nontrivial, tl...)
+}
+
+func gradient(w, ht, seed int) *image.RGBA {
+	src := image.NewRGBA(image.Rect(0, 0, w, ht))
+	for j := 0; j < len(src.Pix); j += 4 {
+		src.Pix[j], src.Pix[j+1], src.Pix[j+2], src.Pix[j+3] = uint8(j), uint8(j>>4), uint8(seed*90), 255
+	}
+	return src
+}
+
+// corpusPlacement is the deterministic replay of the recorded finding resize-same-cells:
+// a 40x40 pixel image (cells of 8x16 pixels) is 32x32 pixels in a 4x3 box and 26x26 in a
+// 4x2 box, 4x2 cells both times; the second Resize changes the pixels but not the placement.
+func corpusPlacement(cfg *hx.Config, s *hx.Stream, direct *[]hx.DirectViolation, sixel bool) {
+	h := newHistory(cfg, sixel, direct)
+	k := h.newImage(gradient(40, 40, 1))
+	h.resize(k, 4, 3)
+	h.clear()
+	h.draw(k, 2, 3, 10, 5, false)
+	h.render(false)
+	h.clear()
+	h.resize(k, 4, 2)
+	h.draw(k, 2, 3, 10, 5, false)
+	h.render(false) // nothing is written: the 26x26 encoding stays unsent
+	h.clear()
+	h.draw(k, 5, 3, 10, 5, false)
+	h.render(false) // the move writes it
+	h.tags["corpus"] = true
+	h.tags["resize-same-cells"] = true
+	h.finish(s, true)
+}
+
+func genPlacement(cfg *hx.Config, s *hx.Stream, direct *[]hx.DirectViolation, sixel bool) {
+	corpusPlacement(cfg, s, direct, sixel)
 	n := 250
 	if cfg.Thorough() {
 		n = 5000
@@ -557,189 +753,84 @@ func genPlacement(cfg *hx.Config, s *hx.Stream, direct *[]hx.DirectViolation, si
 	if sixel {
 		n /= 2
 	}
-	stream := "placement"
-	if sixel {
-		stream = "sixel"
-	}
-	const rows, cols = 24, 80
 	for c := 0; c < n; c++ {
-		vx, fc := newVaxis(rows, cols)
-		nimg := 1 + cfg.Rand.Intn(3)
+		h := newHistory(cfg, sixel, direct)
 		type im struct {
 			k        placeable
 			col, row int
+			bw, bh   int
 			shown    bool
-			resized  bool
 		}
-		imgs := make([]*im, nimg)
+		imgs := make([]*im, 1+cfg.Rand.Intn(3))
 		for i := range imgs {
 			// 8..64 pixels a side: at most 8 x 4 cells of 8 x 16, so no Resize into a box of
 			// at least one cell truncates a side to 0 (an empty image has an empty sixel
 			// encoding, which Sixel.Draw skips, and no PNG encoding at all)
-			src := image.NewRGBA(image.Rect(0, 0, 8+cfg.Rand.Intn(57), 8+cfg.Rand.Intn(57)))
-			for j := 0; j < len(src.Pix); j += 4 {
-				src.Pix[j], src.Pix[j+1], src.Pix[j+2], src.Pix[j+3] = uint8(j), uint8(j>>4), uint8(i*90), 255
-			}
-			imgs[i] = &im{col: cfg.Rand.Intn(40), row: cfg.Rand.Intn(12)}
-			if sixel {
-				imgs[i].k = vx.NewSixel(src)
-			} else {
-				imgs[i].k = vx.NewKittyGraphic(src)
-			}
-			imgs[i].k.Resize(1+cfg.Rand.Intn(6), 1+cfg.Rand.Intn(4))
-			waitIdle(imgs[i].k.VerifEncoding)
-			imgs[i].resized = true
-		}
-		vx.Render()
-		fc.Take()
-		var ops []string
-		var opsJ [][]int
-		var frames []string
-		var framesJ []interface{}
-		tags := map[string]bool{}
-		addOp := func(code, id, col, row, w, h, ww, wh int) {
-			ops = append(ops, hx.Tuple(z(code), z(id), z(col), z(row), z(w), z(h), z(ww), z(wh)))
-			opsJ = append(opsJ, []int{code, id, col, row, w, h, ww, wh})
+			m := &im{k: h.newImage(gradient(8+cfg.Rand.Intn(57), 8+cfg.Rand.Intn(57), i)), col: cfg.Rand.Intn(40),
+				row: cfg.Rand.Intn(12), bw: 1 + cfg.Rand.Intn(6), bh: 1 + cfg.Rand.Intn(4)}
+			h.resize(m.k, m.bw, m.bh)
+			imgs[i] = m
 		}
 		clearEvery := cfg.Rand.Intn(6) != 0 // most applications clear every frame
 		nframes := 3 + cfg.Rand.Intn(8)
-		pendingUpload := map[int]bool{}
-		for i := range imgs {
-			pendingUpload[int(imgs[i].k.VerifID())] = true
-		}
 		for f := 0; f < nframes; f++ {
-			root := vx.Window()
-			cleared := clearEvery || cfg.Rand.Intn(3) == 0
-			if cleared {
-				root.Clear()
-				addOp(0, 0, 0, 0, 0, 0, 0, 0)
+			if clearEvery || cfg.Rand.Intn(3) == 0 {
+				h.clear()
 			} else {
-				tags["no-clear"] = true
+				h.tags["no-clear"] = true
 			}
 			for _, m := range imgs {
 				r := cfg.Rand.Intn(10)
 				switch {
 				case !m.shown && r < 5:
 					m.shown = true
-					tags["add"] = true
+					h.tags["add"] = true
 				case !m.shown:
 					continue
 				case r < 5:
-					tags["keep"] = true
+					h.tags["keep"] = true
 				case r < 7:
 					m.col, m.row = cfg.Rand.Intn(40), cfg.Rand.Intn(12)
-					tags["move"] = true
+					h.tags["move"] = true
 				case r < 8:
-					m.k.Resize(1+cfg.Rand.Intn(6), 1+cfg.Rand.Intn(4))
-					waitIdle(m.k.VerifEncoding)
-					pendingUpload[int(m.k.VerifID())] = true
-					tags["resize"] = true
+					// a new box; half of the time a neighbouring one, which often keeps the cell size
+					ow, oh := m.k.CellSize()
+					if cfg.Rand.Intn(2) == 0 {
+						m.bw, m.bh = 1+cfg.Rand.Intn(6), 1+cfg.Rand.Intn(4)
+					} else if cfg.Rand.Intn(2) == 0 {
+						m.bw++
+					} else {
+						m.bh++
+					}
+					h.resize(m.k, m.bw, m.bh)
+					h.tags["resize"] = true
+					if nw, nh := m.k.CellSize(); nw == ow && nh == oh {
+						h.tags["resize-same-cells"] = true
+					}
 				default:
 					m.shown = false
-					tags["drop"] = true
+					h.tags["drop"] = true
 					continue
 				}
 				// the window: usually roomy, sometimes exactly the image, sometimes too small
-				w, h := m.k.CellSize()
+				w, ht := m.k.CellSize()
 				ww, wh := 10, 5
 				switch cfg.Rand.Intn(8) {
 				case 0:
-					ww, wh = w, h
+					ww, wh = w, ht
 				case 1:
 					ww, wh = cfg.Rand.Intn(w+1), 1+cfg.Rand.Intn(5)
-					tags["small-window"] = true
+					h.tags["small-window"] = true
 				case 2:
-					ww, wh = 1+cfg.Rand.Intn(10), cfg.Rand.Intn(h+1)
-					tags["small-window"] = true
+					ww, wh = 1+cfg.Rand.Intn(10), cfg.Rand.Intn(ht+1)
+					h.tags["small-window"] = true
 				}
-				win := root.New(m.col, m.row, ww, wh)
-				if cfg.Rand.Intn(3) == 0 {
-					win = root.New(m.col/2, m.row/2, -1, -1).New(m.col-m.col/2, m.row-m.row/2, ww, wh)
-				}
-				ww, wh = win.Size()
-				m.k.Draw(win)
-				addOp(1, int(m.k.VerifID()), m.col, m.row, w, h, ww, wh)
+				h.draw(m.k, m.col, m.row, ww, wh, cfg.Rand.Intn(3) == 0)
 			}
-			snap := vx.VerifGraphicsNext()
-			if sixel && cleared {
-				// Sixel.Draw marks exactly the cells of the drawn rectangles.  (Only on frames
-				// that start from a cleared screen: a placement left over from an earlier frame
-				// re-marks cells at render time with the image's current size, see writeFunc.)
-				scr := vx.VerifScreenNext()
-				want := map[[2]int]bool{}
-				for _, p := range snap {
-					for y := 0; y < p.H; y++ {
-						for x := 0; x < p.W; x++ {
-							want[[2]int{p.Col + x, p.Row + y}] = true
-						}
-					}
-				}
-				for y := range scr {
-					for x := range scr[y] {
-						if scr[y][x].Sixel != want[[2]int{x, y}] {
-							*direct = append(*direct, hx.DirectViolation{Class: "sixel-cells",
-								Case: map[string]interface{}{"ops": opsJ, "cell": []int{x, y}, "marked": scr[y][x].Sixel},
-								What: "the cells marked by Sixel.Draw are not the cells of the drawn image rectangles"})
-						}
-					}
-				}
-			}
-			refresh := cfg.Rand.Intn(7) == 0
-			if refresh {
-				vx.Refresh()
-				addOp(3, 0, 0, 0, 0, 0, 0, 0)
-				tags["refresh"] = true
-			} else {
-				vx.Render()
-				addOp(2, 0, 0, 0, 0, 0, 0, 0)
-			}
-			raw := fc.Take()
-			evs, uploads := events(raw)
-			// image data: sent once after each Resize, with the first placement write
-			// (KittyImage.Resize appends to the upload buffer, so two Resizes without a
-			// placement write in between upload twice in one frame: counted once here)
-			seen := map[int]bool{}
-			for _, id := range uploads {
-				if !pendingUpload[id] && !seen[id] {
-					*direct = append(*direct, hx.DirectViolation{Class: "image-retransmitted",
-						Case: map[string]interface{}{"ops": opsJ, "id": id},
-						What: "kitty image data transmitted again although the image was not resized"})
-				}
-				if seen[id] {
-					doubleUploads++
-				}
-				seen[id] = true
-			}
-			for id := range seen {
-				pendingUpload[id] = false
-			}
-			var ps, es []string
-			var pj, ej [][]int
-			for _, p := range snap {
-				ps = append(ps, hx.Tuple(hx.ZU(p.ID), z(p.Col), z(p.Row), z(p.W), z(p.H)))
-				pj = append(pj, []int{int(p.ID), p.Col, p.Row, p.W, p.H})
-			}
-			for _, e := range evs {
-				es = append(es, hx.Tuple(z(e[0]), z(e[1]), z(e[2]), z(e[3])))
-				ej = append(ej, []int{e[0], e[1], e[2], e[3]})
-			}
-			rf := 0
-			if refresh {
-				rf = 1
-			}
-			frames = append(frames, hx.Tuple(z(rf), hx.List(ps), hx.List(es)))
-			framesJ = append(framesJ, map[string]interface{}{"refresh": refresh, "graphicsNext": pj, "events": ej})
+			h.render(cfg.Rand.Intn(7) == 0)
 		}
-		closeVaxis(vx)
-		var tl []string
-		for t := range tags {
-			tl = append(tl, t)
-		}
-		s.Add(hx.Tuple(hx.List(ops), hx.List(frames)),
-			map[string]interface{}{"stream": stream, "ops": opsJ, "frames": framesJ},
-			tags["move"] || tags["drop"] || tags["refresh"] || tags["resize"], tl...)
+		h.finish(s, h.tags["move"] || h.tags["drop"] || h.tags["refresh"] || h.tags["resize"])
 	}
-	return
 }
 
 // ---------------------------------------------------------------- stream float
@@ -875,7 +966,9 @@ func main() {
 
 	pl := hx.NewStream("placement", "model.Image", "placement_case", "c20_placement_mismatches", "c20_placement_violations")
 	pl.ShardMax = 400
-	extra["kitty_double_uploads_in_one_frame"] = genPlacement(cfg, pl, &direct, false)
+	pl.Known = "c20_known"
+	pl.KnownClass = "resize-same-cells"
+	genPlacement(cfg, pl, &direct, false)
 
 	sx := hx.NewStream("sixel", "model.Image", "placement_case", "c20_sixel_mismatches", "c20_sixel_violations")
 	sx.ShardMax = 400
@@ -892,7 +985,7 @@ func main() {
 		"products that binary64 rounds below an integer, random and large sizes (non-trivial = the scaling branch is taken); "+
 		"cellsize: Resize+CellSize of real half-block/full-block/kitty/sixel images (non-trivial = scaled); "+
 		"pixels: block images of random NRGBA/RGBA/NRGBA64 pixels over every alpha level, drawn through Window.SetCell onto a sentinel screen and read back (all non-trivial); "+
-		"placement: random add/keep/move/resize/drop/refresh histories of kitty images on a fake console, control sequences parsed from the output (non-trivial = contains a move, drop, resize or refresh); "+
+		"placement: a fixed corpus history (recorded finding resize-same-cells) and random add/keep/move/resize/drop/refresh histories of kitty images on a fake console, placement and image-data control sequences parsed from the output (non-trivial = contains a move, drop, resize or refresh); "+
 		"sixel: the same histories with Sixel images, sixel strings located in the output, marked cells compared with the drawn rectangles; "+
 		"quantiser (direct checks, no model): octreequant.Paletted on images of at most 254 colours must reproduce every pixel; "+
 		"float: hardware float64(a)/float64(b)*float64(k) against the integer-only rounding model (non-trivial = inexact)",
